@@ -337,7 +337,7 @@ def r5_orphans_index(chk: Check):
         rest = sorted((src(t.ast), pol) for t, pol in guards if (t, pol) not in member)
         ok = okd and rest == sorted([("clean", True)] + (listing[2] if listing else []))
         chk.require(ok, chk.fkey(f, "delete iff clean and unreferenced"), f"orphans deletes under {gs}; expected exactly: --clean and the job is referenced by no index", chk.loc(f.module, c))
-        chk.require(listing is not None and src(c.args[0]) == listing[1], chk.fkey(f, "deletes the orphan itself"), "the deleted path must be the orphan job directory under jobs/", chk.loc(f.module, c))
+        chk.require(listing is not None and (src(c.args[0]) == listing[1] or rd.canon(c.args[0], n) == listing[1]), chk.fkey(f, "deletes the orphan itself"), "the deleted path must be the orphan job directory under jobs/", chk.loc(f.module, c))
 
 
 RULES = [
